@@ -244,6 +244,15 @@ class C01(Prop):
             vals = self._lane(et, n, rng, strat)
             qs = [rng.choice(q_grid(n, rng, 6)) for _ in range(rng.range(1, 8))]
             yield mk_q_case("quantiles1", et, strat, [n], 0, vals, qs, lay1(n, rng.choice([1, 2, -1]), 0, 0), ("R",))
+        # Linear on 64-bit integers beyond 2^53, probed only where (N-1)q is integral (fraction 0: the order statistic itself
+        # must come back exactly; in between, the binary64 arithmetic of Linear is outside the property's quantifier)
+        for _ in range(10 if tier == "quick" else 300):
+            et, base = rng.choice([("i64", 2 ** 53 + 1), ("i64", -(2 ** 53) - 1), ("u64", 2 ** 60 + 100), ("u64", 2 ** 64 - 300)])
+            n = rng.choice([2, 3, 5, 9])
+            vals = [base + rng.choice([0, 1, 2, 3, 5, 7, 11, 100]) for _ in range(n)]
+            qs = [k / (n - 1) for k in range(n) if (k / (n - 1)) * float(n - 1) == float(k)]
+            rng.shuffle(qs)
+            yield mk_q_case("quantiles1", et, 4, [n], 0, vals, qs, lay1(n, rng.choice([1, -1, 2]), 0, 0), ("P", rng.below(3)))
         # malformed stream: invalid q, empty axis
         for et in ("i32", "n64"):
             for qs in ([-0.1], [1.5], [0.5, 2.0, -1.0], [float("inf")], [0.2, -0.0]):
